@@ -26,6 +26,18 @@ Scenario (stream `seq`): `{"steps":[{"op":"req","c":0,"i":1,"r":""},{"op":"done"
   implementation's records): pulls started / in flight afterwards, everybody answered by the
   broadcast, nothing aliased - it does not look at `l`, nor at when a request issued meanwhile
   was served.
+* `cancel c`: `{"op":"cancel","c":0,"i":0,"r":""}` - the context caller `c` passed to the real
+  `Pull(ctx, image)` is cancelled (`x`; `y` if `c` is not in `Pull`).  Modelled behaviour of the code
+  that exists: no effect (`Pull` ignores its context while it waits; `Props.C20.cancel_has_no_effect`).
+  The monitor is more liberal than the model here: a cancelled caller may return early with the
+  context's error (`cN:err:ctx`) at the `x` record instead of being answered by the completion - the
+  property does not forbid a context-aware `Pull` - but everything else is judged as usual, first of
+  all `at most one pull per image in flight` at EVERY record: a cancellation that makes the request
+  manager forget a pull that is still running shows as `overlap` at the next request.
+* `"n"`: number of images the harness scripts and reports on (default 2, at most 16): scenarios with
+  many distinct images in flight at the same time.  A request that does not get through, or a
+  completed pull whose callers are not answered, within the harness's deadline is `TIMEOUT ...
+  inflight=k` = `bad timeout ... HANG`.
 * after the last step every pull still in flight is completed with `ok`, in image order (`D`).
 Scenario (streams `race`, `storm`; exploration):
 `{"free":{"callers":8,"images":2,"rounds":50,"seed":1,"errmod":3}}` (+ `"files"`, `"fsize"`: size of the
@@ -57,20 +69,27 @@ structure Free where
   errmod : Nat
   files : Option Nat
   fsize : Option Nat
+  burst : Option Nat
+  cancelmod : Option Nat
   deriving FromJson
 
 structure Scn where
+  n : Option Nat
   steps : Option (List JStep)
   free : Option Free
   deriving FromJson
 
-def toSStep (j : JStep) : SStep :=
-  if j.i ≥ nImg then .bad   -- the harness only scripts `nImg` images
+/-- most images a scenario may script -/
+def maxImg : Nat := 16
+
+def toSStep (n : Nat) (j : JStep) : SStep :=
+  if j.i ≥ n then .bad   -- the harness only scripts `n` images
   else if j.op == "req" then .req j.c j.i
   else if j.op == "done" then .done j.i (j.r == "err")
+  else if j.op == "cancel" then .cancel j.c
   else if j.op == "park" then
     let mid := j.mid.getD []
-    if mid.any (fun m => m.i ≥ nImg) then .bad
+    if mid.any (fun m => m.i ≥ n) then .bad
     else .park j.i (j.r == "err") (j.k.getD 0) (mid.map fun m => (m.c, m.i))
   else .bad
 
@@ -106,12 +125,12 @@ def renderRec : Rec → String
 
 /-- Run a scenario on a machine (`ReqMgrTrace.trace`) and print one record per step (several for
 a parked broadcast), then the drain records, then `end`. -/
-def traceStr {σ : Type} (m : Machine σ) (steps : List JStep) : List String :=
-  (trace m (steps.map toSStep)).map renderRec
+def traceStr {σ : Type} (n : Nat) (m : Machine σ) (steps : List JStep) : List String :=
+  (trace n m (steps.map (toSStep n))).map renderRec
 
 /-- The same with parked broadcasts looked at once they are over (`ReqMgrTrace.traceC`). -/
-def traceCStr {σ : Type} (m : Machine σ) (steps : List JStep) : List String :=
-  (traceC m (steps.map toSStep)).map renderSpec
+def traceCStr {σ : Type} (n : Nat) (m : Machine σ) (steps : List JStep) : List String :=
+  (traceC n m (steps.map (toSStep n))).map renderSpec
 
 /-- The trivial model of the free-running exploration stream: everybody is answered once per
 call, nothing wrong, nothing aliased, pulls never overlap and never outnumber the requests. -/
@@ -121,7 +140,10 @@ def freeLine (f : Free) : String :=
 def model (sc : Scn) : String :=
   match sc.free with
   | some f => freeLine f
-  | none => ";".intercalate (traceStr modelMachine (sc.steps.getD []))
+  | none =>
+    let n := sc.n.getD nImgDefault
+    if n == 0 || n > maxImg then "BAD-SCN"
+    else ";".intercalate (traceStr n modelMachine (sc.steps.getD []))
 
 /-- `k=v` field of a record. -/
 def field (rec : String) (k : String) : String :=
@@ -174,7 +196,8 @@ def collapseGot (recs : List String) : List String := Id.run do
 /-- Compare one implementation record with the specified one; `none` = conforms. -/
 def checkRec (k : Nat) (want got : String) : Option String :=
   if got == want then none else
-  if got.startsWith "TIMEOUT" then some s!"timeout step={k} {got}" else
+  if got.startsWith "TIMEOUT" then
+    some s!"timeout step={k} HANG with {field got "inflight"} image(s) in flight: a request did not get through or the callers of a completed pull were not answered (every request is answered once its pull completes, whatever the number of distinct images in flight): {got}" else
   if want.startsWith "end" || got.startsWith "end" then
     if got.startsWith "end" && want.startsWith "end" then
       some s!"waiting-forever step={k} want={want} got={got}"
@@ -197,8 +220,18 @@ def checkRec (k : Nat) (want got : String) : Option String :=
   if field got "a" != "0" then some s!"aliased step={k} returned packages share memory: {got}" else
   some s!"step-kind step={k} want={want} got={got}"
 
+def retsStr (l : List (String × String)) : String :=
+  if l.isEmpty then "-" else ",".intercalate (l.map fun (c, x) => s!"{c}:{x}")
+
+/-- replace the value of field `k` of a record -/
+def setField (rec k v : String) : String :=
+  " ".intercalate ((rec.splitOn " ").map fun w => if w.startsWith (k ++ "=") then s!"{k}={v}" else w)
+
 /-- Monitor: replay the specification on the scenario and compare it, record by record, with what
-the implementation did. -/
+the implementation did.  Two things are judged more liberally than "equal to the specification's
+record": the fields `o=`/`l=` (not the property's business), and a caller whose context the
+scenario cancelled may return the context's error early (`cN:err:ctx`, at the record where the
+harness sees it) instead of being answered by the completion of the pull. -/
 def monitor (sc : Scn) (out : String) : String :=
   match sc.free with
   | some f =>
@@ -206,16 +239,30 @@ def monitor (sc : Scn) (out : String) : String :=
     else if out.startsWith "TIMEOUT" then s!"bad timeout free {out}"
     else s!"bad free-summary want={freeLine f} got={out}"
   | none => Id.run do
-    let want := traceCStr specMachine (sc.steps.getD [])
+    let n := sc.n.getD nImgDefault
+    if n == 0 || n > maxImg then
+      return (if out == "BAD-SCN" then "ok" else s!"bad scenario-not-rejected {out}")
+    let want := traceCStr n specMachine (sc.steps.getD [])
     let raw := if out.isEmpty then [] else out.splitOn ";"
-    -- at most one pull per image in flight, at every observation (also inside a parked broadcast)
+    -- at most one pull per image in flight, at EVERY observation (after every request, completion
+    -- and cancellation, and inside a parked broadcast)
     for g in raw do
-      if (g.startsWith "P " || g.startsWith "w " || g.startsWith "U ") && (nats (field g "f")).any (· > 1) then
+      if (nats (field g "f")).any (· > 1) then
         return s!"bad overlap more than one pull of an image in flight: {g}"
     let got := collapseGot raw
     let mut k := 0
+    let mut early : List String := []   -- cancelled callers that gave up before their pull completed
     for (w, g) in want.zip got do
-      match checkRec k w g with
+      let rg := rets (field g "r")
+      let e := (rg.filter fun (_, x) => x == "err:ctx").map (·.1)
+      let rg' := rg.filter fun (_, x) => x != "err:ctx"
+      let g' := if e.isEmpty then g else setField g "r" (retsStr rg')
+      early := early ++ e
+      let rw := rets (field w "r")
+      let gone := (rw.filter fun (c, _) => early.contains c && !(rg'.any fun (c', _) => c' == c)).map (·.1)
+      let w' := if gone.isEmpty then w else setField w "r" (retsStr (rw.filter fun (c, _) => !gone.contains c))
+      early := early.filter fun c => !gone.contains c
+      match checkRec k w' g' with
       | some e => return "bad " ++ e
       | none => k := k + 1
     if want.length != got.length then
